@@ -58,7 +58,8 @@ Inductive ract :=
 | RF1 | RF2
 | RC1 (ocs : option changeset)   (* Compact returned this change set / nil *)
 | RC1F                            (* Compact failed with a storage read error *)
-| RC2.
+| RC2
+| RF2o (outs : list table). (* the locked swap of the flush task with the level-0 tables it actually wrote *)
 
 Definition rinit (nlevels : nat) : db := mkDb [[]] 0 0 (repeat [] nlevels) 0 0 FIdle 0 CIdle 0 RNone.
 
@@ -74,6 +75,16 @@ Definition rlayout (st : db) : levels := (hd [] (lv st) ++ mts st) :: tl (lv st)
 
 Definition set_ct (st : db) (n : nat) (c : ctask) : db :=
   mkDb (mts st) (msize st) (walb st) (lv st) (seqn st) (fpend st) (ft st) n c (mcl st) (rd st).
+
+(* a flush may write the sealed memtables it consumed in any legal form - one table each (db.go today), one merged table, ... :
+   non-empty key-sorted tables made only of entries of the consumed memtables, whose newest-per-key merge equals that of
+   the consumed memtables, and which fit chronologically between the level-0 tables and the memtables that stay *)
+Definition entry_in (e : entry) (ts : list table) : bool := existsb (fun t => existsb (entry_eqb e) t) ts.
+Definition flush_okb (st : db) (snap outs : list table) : bool :=
+  forallb (fun t => nonemptyb t && sortedb t) outs &&
+  table_eqb (merge_all outs) (merge_all snap) &&
+  forallb (fun t => forallb (fun e => entry_in e snap) t) outs &&
+  sepb (hd [] (lv st) ++ outs ++ skipn (length snap) (mts st)).
 
 Definition dummy_cfg : dbcfg := mkDbCfg 0 0 0 (mkCfg 1 0 0 1).
 
@@ -101,6 +112,15 @@ Definition rstep (chk : bool) (st : db) (a : ract) : option (db * obs) :=
       | CIdle, S n => go n
       | CIter, n => go n
       | _, _ => None
+      end
+  | RF2o outs =>
+      match ft st with
+      | FSwap snap =>
+          if negb chk || flush_okb st snap outs
+          then Some (mkDb (skipn (length snap) (mts st)) (msize st) (walb st) (add_l0 outs (lv st)) (seqn st) (fpend st) FIdle
+                          (S (cpend st)) (ct st) (mcl st) (rd st), ONone)
+          else None
+      | _ => None
       end
   | RC1F =>
       match ct st, cpend st with
